@@ -56,6 +56,10 @@ color(r). color(g). color(b).
 col3(A, B, C, D) :- color(A), color(B), color(C), color(D), diff(A, B), diff(A, C), diff(B, C), diff(B, D), diff(C, D).
 diff(r, g). diff(r, b). diff(g, r). diff(g, b). diff(b, r). diff(b, g).
 dapp(X-Y, Y-Z, X-Z).
+sw(X, f(Y, Z)) :- ( Y = l(X) ; Z = r(X) ).
+sw5(a, b, c, d, E) :- ( E = 1 ; E = 2 ; E = 3 ).
+big9(a, b, c, d, e, f, g, h, I) :- ( I = 1 ; I = 2 ; I = 3 ).
+big11(X, f(X, Y), g(Y, Z), [Z|T], T) :- ( X = 1, Y = 2 ; X = 3, T = [] ; Z = z ).
 opl([A,B|R], R).
 opl([A,B,C,D|R], four(R)).
 opl([A|R], one(A, R)).
@@ -130,6 +134,11 @@ func classicQuery(i int, size int) (string, int) {
 		func() (string, int) { return fmt.Sprintf("app(X, Y, %s), len(X, N), N > 1", listOfInts(n%6+2)), 20 },
 		func() (string, int) { return fmt.Sprintf("perm(%s, P), P = [3|_]", listOfInts(4)), 10 },
 		// open lists with several known elements meeting open lists of another length (in =/2, in heads, through variables)
+		// rules with a disjunctive body under heads of several sizes (each alternative is a compiled clause of its own)
+		func() (string, int) { return "sw(1, f(A, B))", 5 },
+		func() (string, int) { return "sw5(a, b, c, d, E)", 5 },
+		func() (string, int) { return "big9(a, b, c, d, e, f, g, h, I)", 5 },
+		func() (string, int) { return "big11(X, P, Q, L, T)", 5 },
 		func() (string, int) { return "[1,2,3|T] = [A,B|R]", 3 },
 		func() (string, int) { return "[A,B|R] = [1,2,3|T], T = [4]", 3 },
 		func() (string, int) { return "X = [a,b,c,d|T], Y = [P,Q|R], X = Y, T = [e]", 3 },
